@@ -6,7 +6,7 @@ from onl.netdev import Port, PortMonitor
 from onl.netdev.red_port import REDPort
 import onl.netdev.red_port as red_mod
 
-from ..net import valid_workloads as valid  # noqa: E402,F401
+from ..net import valid_workloads_noreuse as valid  # noqa: E402,F401
 
 ID = 'C09'
 SHRINK_KEEP = ('red',)
